@@ -117,11 +117,14 @@ def flip_routes(ops):
 def eval_twin_route(prop, cfg, ops, opts=None):
     """C10: run the history as given and with routes flipped; every result
     and the final contents must agree."""
-    a = run_case("__twin__", cfg, ops, opts)
+    a = run_case("C10", cfg, ops, opts)
     r = CaseResult()
     r.world = a.world
     if a.harness:
         r.harness = a.harness
+        return r
+    if a.violation:
+        r.violation = a.violation
         return r
     ops_b = flip_routes(ops)
     b = run_case("__twin__", cfg, ops_b, opts)
@@ -249,7 +252,10 @@ class Agg:
                  catalog.canon(r.violation) + str(r.foreign)).encode()
             ).hexdigest()
         if r.violation is not None:
-            if len(self.failures) < 12:
+            trig = bool(cfg.get("triggers"))
+            n_same = sum(1 for f in self.failures
+                         if bool(f[1].get("triggers")) == trig)
+            if n_same < (6 if trig else 14):
                 self.failures.append((seed, cfg, ops, r.violation, how))
             else:
                 self.stats["failures-dropped"] = self.stats.get(
